@@ -26,6 +26,7 @@ func profC05() *RevProfile {
 	p.ConfigW = []int{10, 10, 45, 35}
 	p.PSrcFault = 45
 	p.DeltaPct = 50
+	p.SoakPct = 15
 	return p
 }
 
@@ -38,6 +39,7 @@ func profC06() *RevProfile {
 	p.CancelPct = 15
 	p.BigBodyPct = 2
 	p.CachePct = 40
+	p.SoakPct = 20
 	return p
 }
 
@@ -64,6 +66,7 @@ func profC11() *RevProfile {
 	p.ConfigW = []int{15, 25, 25, 35}
 	p.PSrcFault = 45
 	p.TimestampPct = 30
+	p.SoakPct = 15
 	return p
 }
 
@@ -90,6 +93,10 @@ func runRev(propID string, prof *RevProfile, rules []string, t *Tape, st *Stats,
 		if prof.Schedules > 1 {
 			prof.Perms = -1
 		}
+		if prof.SoakPct > 0 {
+			prof.SoakPct += 15
+			prof.SoakLong = true
+		}
 	} else if prof.Schedules > 1 {
 		prof.Perms = 2
 	}
@@ -115,6 +122,15 @@ func runRevScenario(propID string, sc *RevScenario, rules []string, st *Stats, t
 		}
 		st.SimTimeMs += obs.TEnd.Sub(Epoch).Milliseconds()
 		fired := countRevStats(sc, obs, st)
+		if sc.Sequential && si == 0 {
+			st.Probes["soak_histories"]++
+			st.Probes["soak_validations"] += int64(len(obs.Calls))
+			for _, r := range sc.Restarts {
+				if r {
+					st.Probes["soak_restarts"]++
+				}
+			}
+		}
 		for _, co := range obs.Calls {
 			sc.evalRevCall(rc, obs, co)
 		}
